@@ -593,6 +593,122 @@ func runC04(c *Ctx) {
 		mu.Unlock()
 	})
 
+	// the same transfers when the instruction is supplied by a mode-0 interrupting device
+	// (target and condition come from the supplied bytes, never from the bytes at PC)
+	var im0N int64
+	{
+		r := mon.NewRng(uint64(c.Seed) ^ 0xC04D)
+		mem := &mon.Mem{}
+		mem.Fill(r.U64())
+		mem.Logging = true
+		n0 := c.Pick(64, 1024)
+		for _, od := range ops {
+			op := od.bs[0]
+			isJP := op == 0xc3 || op&0xc7 == 0xc2
+			isCALL := op == 0xcd || op&0xc7 == 0xc4
+			isRST := op&0xc7 == 0xc7
+			isRET := op == 0xc9 || op&0xc7 == 0xc0
+			isJPHL := op == 0xe9
+			if !(isJP || isCALL || isRST || isRET || isJPHL) || len(od.bs) > 3 {
+				continue
+			}
+			for i := 0; i < n0; i++ {
+				pre := RandStates(r)
+				pre.IM, pre.IFF1 = 0, true
+				pre.AF.Lo = uint8(i)
+				t := Ptr16(r, pre.PC, pre.SP)
+				bs := append([]uint8(nil), od.bs...)
+				if len(bs) == 3 {
+					bs[1], bs[2] = uint8(t), uint8(t>>8)
+				}
+				mem.Reset()
+				for k, b := range bs {
+					mem.Place(pre.PC+uint16(k), ^b) // the interrupted program holds something else there
+				}
+				// keep the stack clear of the bytes at PC (this implementation overlays them)
+				if d := pre.SP - pre.PC; d < 8 || d > 0xfff8 {
+					pre.SP += 0x100
+				}
+				spWord := uint16(mem.Data[pre.SP]) | uint16(mem.Data[pre.SP+1])<<8
+				cpu := z80.CPU{States: pre, Memory: mem, Interrupt: z80.IM0Interrupt(bs[0], bs[1:]...)}
+				var pan interface{}
+				func() {
+					defer func() { pan = recover() }()
+					cpu.Step()
+				}()
+				im0N++
+				taken := true
+				if op&0xc7 == 0xc2 || op&0xc7 == 0xc4 || op&0xc7 == 0xc0 {
+					taken = c04Cond(int(op>>3)&7, pre.AF.Lo)
+				}
+				got := Arch(cpu.States)
+				exp := pre
+				exp.IFF1, exp.IFF2 = false, false
+				exp.IR.Lo = got.IR.Lo
+				l := uint16(len(bs))
+				bad := ""
+				retOK := func(v uint16) bool { return v == pre.PC || v == pre.PC+l } // C07's subject (known finding there)
+				switch {
+				case pan != nil:
+					bad = fmt.Sprintf("panic: %v", pan)
+				case !taken:
+					if !retOK(got.PC) {
+						bad = "untaken form did not leave PC at the interrupted program"
+					}
+					exp.PC = got.PC
+				case isJP:
+					exp.PC = t
+				case isJPHL:
+					exp.PC = pre.HL.U16()
+				case isRET:
+					exp.PC, exp.SP = spWord, pre.SP+2
+				case isCALL || isRST:
+					exp.PC, exp.SP = t, pre.SP-2
+					if isRST {
+						exp.PC = uint16(op & 0x38)
+					}
+					pushed := uint16(mem.Data[pre.SP-2]) | uint16(mem.Data[pre.SP-1])<<8
+					if !retOK(pushed) {
+						bad = "pushed return address is neither the interrupted PC nor the address behind the supplied bytes"
+					}
+				}
+				if bad == "" && got != exp {
+					bad = "post-state"
+					if got.PC != exp.PC {
+						bad = "PC (target must come from the supplied bytes)"
+					} else if got.AF.Lo != exp.AF.Lo {
+						bad = "flags changed"
+					} else if got.SP != exp.SP {
+						bad = "SP"
+					}
+				}
+				if bad == "" {
+					nw := 0
+					for _, a := range mem.Log {
+						if a.Kind == 'W' {
+							nw++
+						}
+					}
+					wantW := 0
+					if taken && (isCALL || isRST) {
+						wantW = 2
+					}
+					if nw != wantW {
+						bad = fmt.Sprintf("%d memory writes, want %d", nw, wantW)
+					}
+				}
+				if bad != "" {
+					c.R.Violation("C04/mode0-supplied/"+od.name+"/"+bad, map[string]interface{}{
+						"what": bad, "supplied_instruction": HexBytes(bs), "pre": DumpState(&pre, false), "post": DumpState(&cpu.States, cpu.HALT),
+						"taken": taken, "bus": DumpAccesses(mem.Log), "word_at_SP": h16(spWord)})
+					break
+				}
+			}
+		}
+	}
+	c.R.Set("steps_supplied_by_a_mode0_device", im0N)
+	evals += im0N
+
 	c.R.Set("evaluations", evals+laws)
 	c.R.Set("single_steps", evals)
 	c.R.Set("two_step_laws", laws)
@@ -605,6 +721,6 @@ func runC04(c *Ctx) {
 	c.R.Set("instructions", int64(len(ops)))
 	c.R.Set("exhaustive", false)
 	c.R.Set("exhaustive_over", "all 256 F for each of the 28 conditional opcodes, all 256 B for DJNZ, all 256 offsets for JR/JR cc/DJNZ; data sampled")
-	c.R.Set("rule", "every conditional opcode (8 JP cc, 8 CALL cc, 8 RET cc, 4 JR cc) x all 256 F, DJNZ x all 256 B, relative jumps x all 256 offsets, the unconditional JP/JR/CALL/RET/8 RST/JP (HL)/(IX)/(IY)/RETI/RETN, each x k boundary-biased samples of PC, SP, target and stack contents (PC at FFFD..FFFF, SP in {0,1,2,FFFE,FFFF}, SP within -2..+5 of PC so that pushed bytes overlap the instruction, targets 0000/FFFF); closed-form specification (condition table, address arithmetic mod 65536, push/pop layout) gives the whole expected States, the exact stack writes and the permitted data reads; two-Step laws CALL;RET and PUSH qq;POP qq for BC DE HL AF IX IY, and CALL ; <stack slot changed by the host, LD (HL),n, EX (SP),HL or INC (HL)> ; RET on one CPU object. Distinct = distinct (opcode, F or B, taken, PC, SP, operand) hashes (sampled 1/3: lower bound); all cases are non-trivial (each moves PC)")
+	c.R.Set("rule", "every conditional opcode (8 JP cc, 8 CALL cc, 8 RET cc, 4 JR cc) x all 256 F, DJNZ x all 256 B, relative jumps x all 256 offsets, the unconditional JP/JR/CALL/RET/8 RST/JP (HL)/(IX)/(IY)/RETI/RETN, each x k boundary-biased samples of PC, SP, target and stack contents (PC at FFFD..FFFF, SP in {0,1,2,FFFE,FFFF}, SP within -2..+5 of PC so that pushed bytes overlap the instruction, targets 0000/FFFF); closed-form specification (condition table, address arithmetic mod 65536, push/pop layout) gives the whole expected States, the exact stack writes and the permitted data reads; two-Step laws CALL;RET and PUSH qq;POP qq for BC DE HL AF IX IY, and CALL ; <stack slot changed by the host, LD (HL),n, EX (SP),HL or INC (HL)> ; RET on one CPU object; JP/CALL/RET (cc and plain), RST and JP (HL) once more with the instruction supplied by a mode-0 interrupting device while the bytes at PC hold something else (target, condition, stack layout from the supplied bytes; return address PC or PC+len, see C07). Distinct = distinct (opcode, F or B, taken, PC, SP, operand) hashes (sampled 1/3: lower bound); all cases are non-trivial (each moves PC)")
 	c.R.Assume("RETI leaving IFF1 unchanged or copying IFF2 are both accepted (DESIGN 2.3)")
 }
